@@ -805,6 +805,15 @@ def run(ctx):
 
     # ---- verdict
     failures = []
+    if not have_xl and dbad and not derr:
+        # without xmllint the in-Coq validator is the schema oracle
+        vb, _ = core.coq_eval_cases(ctx, HEADER, 'C04.xcase', [c_xcase(docs[i][2], True) for i in dbad],
+                                    'C04.xmismatches', chunk=15, label='coqoracle')
+        for j in vb[:10]:
+            ri, di, d, _ = docs[dbad[j]]
+            failures.append({'signature': 'C04:schema:coq-validator', 'clause': 'schema-valid',
+                             'what': 'written document rejected by the in-Coq schema validator (xmllint absent)',
+                             'input': {'recipe': recipes[ri], 'doc_index': di}, 'detail': 'validate schema141 doc = false'})
     for ri, res in enumerate(results):
         if res.get('crash'):
             failures.append({'signature': 'C04:crash-or-hang:write', 'clause': 'crash-or-hang', 'kind': 'crash-or-hang',
